@@ -152,8 +152,10 @@ class ControlSession:
                 self._pool.__class__.__name__,
                 prop.fset.__name__,
             )
-            await return_or_exception(prop.fset, self._pool, **kwargs)  # type: ignore[call-arg]
-            self._response_buffer.write(CMD_OK.decode())
+            output = await return_or_exception(prop.fset, self._pool, **kwargs)  # type: ignore[call-arg]
+            self._response_buffer.write(
+                CMD_OK.decode() if output is None else str(output)
+            )
         else:
             if prop.fget is None:
                 raise TypeError("Property must have a getter")  # noqa: TRY003
